@@ -23,7 +23,7 @@ META = {
             "clauses for every pre-existing folder set and every operation sequence, the peerstore round trip and bad-line skipping. "
             "The model is tied to today's code by running the real dsstate, raft snapshot/cleanup functions, cmdutils state managers and "
             "pstoremgr on seeded cases and checking model agreement and the Lean property checker on the real outputs.",
-    "note": "export/import is proved for pinsets without origins; a pin with origins cannot be decoded from JSON (known finding K01c); a peerstore line of 64 KiB or more ends the reading (K19). "
+    "note": "export/import is proved for pinsets without origins; a pin with origins cannot be decoded from JSON (known finding K01c). "
             "Atoms are table indices (byte codecs are C08's subject).",
     "technique": "Lean 4 theorems over functional/relational models + differential correspondence with the real code",
 }
